@@ -9,7 +9,8 @@ import sbc_common as SC
 from common import prove
 
 THEOREMS = ["Matid.Props.C03.sbc_two_slabs", "Matid.SBC.merge_two_disjoint", "Matid.SBC.localize_id_of_disjoint", "Matid.SBC.clean_connected"]
-TRUSTED = ["Lean 4 kernel", "axioms: propext, Classical.choice, Quot.sound at most", "the pipeline model of C01 (tied there by correspondence)",
+TRUSTED = ["stage models of the finder (SbcEntry, SpanGraph, BestBasis, AdaptiveCell, WithinBasis, ProtoAssemble, ProtoDecision, Region) with their theorems as obligations; tied by recorded-call correspondence in THIS run: the answers of sub-functions modelled elsewhere (get_matches, get_matches_simple, get_positions_within_basis, _find_best_basis inside the span-graph replay) are recorded and handed to the model as oracle data (recorders in harness/sbc_common.py, harness/region_model.py)", "rule translators gen_sbc_rule / gen_proto_rule / gen_region_rule / gen_assemble_rule / gen_dim_rule (AST facts; a harmless refactoring can flip one)",
+           "Lean 4 kernel", "axioms: propext, Classical.choice, Quot.sound at most", "the pipeline model of C01 (tied there by correspondence)",
            "contract F on the periodic finder (started in slab X it returns exactly X): SAMPLED on the family, not proved"]
 EXPL = ("Conditional Lean theorem (sbc_two_slabs): two clusters that share no atom are, for every non-negative merge threshold and every merge radius, neither merged "
         "nor changed by localisation, and cleaning keeps each connected slab whole — in either discovery order. That the finder started in one slab returns exactly "
